@@ -174,7 +174,12 @@ def Program(pid, fns, globs=(), feats=None, sings=(), host=None, imports=(), imp
     """sings: [(name, type text, zero value expr)]; host: {name: (value expr, JV)} values the host provides;
     impls: [{"templ", "caps" (list or None), "sing", "methods": [function names]}] - the methods are entries of fns"""
     host = host or {}
-    sg = [{"x": n, "e": (host[n][0] if n in host else z), "decl": t} for n, t, z in sings]
+    def zero(t, z):
+        if z is not None:
+            return z
+        from . import tyspec      # (the specification derives the default value from the declared type: HmsSem DefaultExpr)
+        return {"k": "default", "t": tyspec.parse_type(t)}
+    sg = [{"x": n, "e": (host[n][0] if n in host else zero(t, z)), "decl": t} for n, t, z in sings]
     return {"id": pid, "fns": fns, "globals": sg + [{"x": x, "e": e} for x, e in globs], "feats": feats or {},
             "host": {n: v[1] for n, v in host.items()}, "imports": list(imports), "impls": [dict(i) for i in impls]}
 
